@@ -3,7 +3,7 @@
 EXTENDS Entry, Json
 VARIABLE l
 Trace == ndJsonDeserialize("trace.ndjson")
-TInit == l = 1 /\ cls = "ok" /\ entry = "Parse" /\ pc = "parse" /\ result = "none" /\ badimport = FALSE
+TInit == l = 1 /\ cls = "ok" /\ entry = "Parse" /\ pc = "parse" /\ result = "none" /\ badimport = FALSE /\ hasRef = FALSE
 TNext == l <= Len(Trace) /\ l' = l + 1 /\ UNCHANGED vars
 Rec == Trace[l]
 Conforms == l <= Len(Trace) =>
